@@ -2,7 +2,7 @@
 (tools/cbgen.py) -> the real cglue-bindgen (built from /repo, fake `cbindgen` on PATH) -> processed
 header -> C compilers, repeated runs, declaration diff (C18) / mock-vtable driver + TLC trace
 validation (C17)."""
-import json, os, random, re, subprocess, sys, hashlib
+import re, json, os, random, subprocess, sys, hashlib
 import lib
 from lib import run_tlc, workdir
 
@@ -192,6 +192,23 @@ def run_c17(c, tier, langs=("c", "cpp")):
                 ph = subprocess.run(cc + ["-fsyntax-only", "-x", "c" if lang == "c" else "c++", os.path.join(md, hname)], capture_output=True, text=True)
                 if ph.returncode != 0:
                     c.cov.setdefault("other_property_divergences", []).append({"property": "C18", "what": "processed %s header does not compile on its own" % lang, "model": idx})
+                    # ... unless the compiler's complaint sits INSIDE a generated wrapper: then the wrapper does not forward
+                    # (arguments mangled, wrong callee expression), which is this property's subject as well
+                    hl = header.splitlines()
+                    inside = []
+                    for m_ in re.finditer(r"%s:(\d+):\d+: error: ([^\n]*)" % re.escape(os.path.join(md, hname)), ph.stderr):
+                        ln = int(m_.group(1)) - 1
+                        for j in range(ln, max(-1, ln - 40), -1):
+                            t = hl[j] if 0 <= j < len(hl) else ""
+                            if ("static inline" in t or (lang == "cpp" and "inline " in t)) and "(" in t:
+                                if j != ln or "{" in t:
+                                    inside.append((t.strip()[:120], m_.group(2)[:160]))
+                                break
+                            if t.startswith("}") or t.startswith("typedef") or t.startswith("struct "):
+                                break
+                    if inside:
+                        c.violation("[%s] a generated wrapper does not compile (its arguments or callee are not forwarded as written): %s: %s" % (lang, inside[0][0], inside[0][1]),
+                                    {"model": model, "dir": md, "errors": inside[:5]})
                     continue
                 errs = " | ".join(l.strip() for l in pc.stderr.splitlines() if "error" in l)[:600]
                 c.violation("[%s] a caller cannot compile calls to the generated wrappers: %s" % (lang, errs or pc.stderr[-600:]), {"model": model, "dir": md})
